@@ -2,7 +2,7 @@
    ONLY theorem statements; each is closed by [exact] of a lemma of C07/Proofs*.v. *)
 From Coq Require Import List NArith ZArith Bool Permutation Sorted.
 Import ListNotations.
-From Verif.C07 Require Import Model Proofs ProofsDense ProofsLib ProofsLen ProofsOps ProofsSet ProofsHist ProofsCount ProofsCount2 ProofsExport.
+From Verif.C07 Require Import Model Proofs ProofsDense ProofsLib ProofsLen ProofsOps ProofsSet ProofsHist ProofsCount ProofsCount2 ProofsExport ProofsAlgo.
 Local Open Scope N_scope.
 
 (* 1. goja's _defineOwnProperty decision tree (as repaired by 7dd46dd/8a03683/4561dbf) equals
@@ -138,6 +138,32 @@ Proof. exact ProofsCount2.init_exact. Qed.
 Theorem export_refines : forall d, InvDn d -> ExactD d -> da_length d <= MAXIDX -> d_export d = s_export (absD d).
 Proof. exact ProofsExport.export_refines. Qed.
 
+(* 2j. Array.prototype.push / pop / shift / unshift / splice / slice: the generic algorithms of builtin_array.go run on
+      goja's storages (either one, switching at will) return what the same algorithm returns on the abstract array S
+      and denote the same array afterwards, for every state in the invariant and all arguments whose keys are array
+      indices ([Sim rI rS] : rS = (absA (fst rI), snd rI) /\ InvA (fst rI)).  By simulation over the six primitives. *)
+Theorem push_refines : forall a items, InvA a -> i_len a + nlen items <= MAXIDX ->
+  Sim (a_push primI a items) (a_push primS (absA a) items).
+Proof. exact ProofsAlgo.push_refines. Qed.
+
+Theorem pop_refines : forall a, InvA a -> i_len a <= MAXIDX -> Sim (a_pop primI a) (a_pop primS (absA a)).
+Proof. exact ProofsAlgo.pop_refines. Qed.
+
+Theorem shift_refines : forall a, InvA a -> i_len a <= MAXIDX -> Sim (a_shift primI a) (a_shift primS (absA a)).
+Proof. exact ProofsAlgo.shift_refines. Qed.
+
+Theorem unshift_refines : forall a items, InvA a -> i_len a + nlen items <= MAXIDX ->
+  Sim (a_unshift primI a items) (a_unshift primS (absA a) items).
+Proof. exact ProofsAlgo.unshift_refines. Qed.
+
+Theorem splice_refines : forall a st dc items, InvA a -> i_len a + nlen items <= MAXIDX ->
+  Sim (a_splice primI a st dc items) (a_splice primS (absA a) st dc items).
+Proof. exact ProofsAlgo.splice_refines. Qed.
+
+Theorem slice_refines : forall a st en, InvA a -> i_len a <= MAXIDX ->
+  a_slice primI a st en = a_slice primS (absA a) st en.
+Proof. exact ProofsAlgo.slice_refines. Qed.
+
 (* 3. switching the storage strategy, in either direction, never changes the abstract array *)
 Theorem transition_invisible :
   (forall a, absS (expand_d2s a) = absD a) /\
@@ -195,6 +221,12 @@ Print Assumptions sparse_define_counters.
 Print Assumptions counters_history.
 Print Assumptions init_exact.
 Print Assumptions export_refines.
+Print Assumptions push_refines.
+Print Assumptions pop_refines.
+Print Assumptions shift_refines.
+Print Assumptions unshift_refines.
+Print Assumptions splice_refines.
+Print Assumptions slice_refines.
 Print Assumptions transition_invisible.
 Print Assumptions setlength_nonconfigurable_tail.
 Print Assumptions check_sort_sound.
